@@ -129,6 +129,14 @@ def canon(v):
   return v
 
 
+def frozen_ok(value_spec, stored):
+  """A frozen field / element holds exactly its frozen value (checked directly, not through apply)."""
+  import pyglove as pg
+  if value_spec.frozen and pg.MISSING_VALUE != value_spec.default:
+    return canon(tv.from_py(stored)) == canon(tv.from_py(value_spec.default))
+  return True
+
+
 def member_ok(value_spec, wire, partial):
   """The stored member (wire form), JSON-round-tripped, is accepted by its spec and mapped to itself."""
   try:
@@ -179,8 +187,12 @@ class C03(Prop):
   def gen_list(self, rng, g):
     while True:
       elem = g.spec(0)
-      if elem['k'] not in ATOM_KINDS:
+      if rng.chance(0.12):
+        elem = {'k': 'obj', 'cls': 4, 'n': 0}       # elements are symbolic objects with nested children
+      elif elem['k'] not in ATOM_KINDS:
         continue
+      elif rng.chance(0.1):
+        self.freeze_optional(g, elem)
       mn, mx = g.sizes()
       spec = {'k': 'list', 'elem': elem, 'mn': mn, 'mx': mx, 'n': 0}
       try:
@@ -201,6 +213,10 @@ class C03(Prop):
     length = size
 
     def val():
+      if elem['k'] == 'obj' and elem['cls'] == 4 and rng.chance(0.8):
+        return ['o'] + rng.choice(tv.SYM_POOL)
+      if elem.get('fz') and elem.get('n') and rng.chance(0.4):
+        return ['N']
       return g.valid(elem) if rng.chance(0.6) else g.near_miss(elem)
 
     for _ in range(rng.randint(1, 8)):
@@ -248,19 +264,46 @@ class C03(Prop):
         ops.append([k])
     return {'kind': 'list', 'spec': spec, 'items': items, 'ops': ops}
 
+  def freeze_optional(self, g, fd):
+    """Makes an atom field both noneable and frozen at a non-None value (`Str().noneable().freeze('a')`)."""
+    fd['n'] = 0
+    fd.pop('fz', None)
+    fd.pop('d', None)
+    v = g.valid(fd)
+    if v in (['N'], ['M']):
+      return
+    fd['d'] = v
+    fd['fz'] = True
+    fd['n'] = 2 if fd['k'] == 'enum' else g.r.choice([1, 2])
+
   def gen_dict(self, rng, g, kind):
     while True:
       names = rng.sample(['x', 'y', 'z', 'w'], rng.randint(1, 3))
       fields = []
       for nm in names:
+        # field kinds: atoms (some frozen + optional), Object-typed, and a guaranteed share of
+        # container-typed fields (list / dict with schema / Union[container, Str])
+        shape = rng.weighted([(30, 'any'), (8, 'frozen-optional'), (14, 'object'), (16, 'list'), (16, 'dict'), (16, 'union')])
         fd = g.spec(rng.weighted([(3, 0), (3, 1)]))
-        if fd['k'] not in ('list', 'dict', 'union') and rng.chance(0.25):
-          inner = g.spec(1)
-          if inner['k'] in ('list', 'dict') and (inner['k'] != 'dict' or inner.get('fields')):
+        if shape in ('list', 'dict', 'union'):
+          inner = None
+          for _try in range(20):
+            c = g.spec(1)
+            want = 'list' if shape == 'list' else 'dict' if shape == 'dict' else rng.choice(['list', 'dict'])
+            if c['k'] == want and (c['k'] != 'dict' or c.get('fields')):
+              inner = c
+              break
+          if inner is not None:
             inner['n'] = 0
             inner.pop('d', None)
             inner.pop('fz', None)
-            fd = inner if rng.chance(0.5) else {'k': 'union', 'cands': [inner, {'k': 'str', 'rx': None, 'n': 0}], 'n': 0}
+            fd = inner if shape != 'union' else {'k': 'union', 'cands': [inner, {'k': 'str', 'rx': None, 'n': 0}], 'n': 0}
+        elif shape == 'object':
+          fd = {'k': 'obj', 'cls': 4, 'n': rng.choice([0, 0, 1])}    # Object-typed field (nested symbolic object)
+        elif shape == 'frozen-optional':
+          while fd['k'] not in ATOM_KINDS:
+            fd = g.spec(0)
+          self.freeze_optional(g, fd)
         if fd['k'] in ('list', 'tuple', 'dict', 'union'):
           # a noneable container field re-applies its (symbolic) default through CustomTyping,
           # which is outside the value-spec model
@@ -311,7 +354,13 @@ class C03(Prop):
       src.pop('fz', None)
       src['n'] = 0
       sp = rng.chance(0.3)
+      wider = src['k'] == 'dict' and not any(f[0][0] == 'k' for f in src['fields']) and rng.chance(0.35)
+      if wider:
+        # bound to a WIDER schema (an extra dynamic StrKey field) and actually holding extra keys
+        src['fields'] = src['fields'] + [[['k', None], g.spec(0)]]
       content = g.valid(src)
+      if wider and not any(k not in [f[0][1] for f in src['fields'] if f[0][0] == 'c'] for k, _ in content[1]):
+        content = ['d', content[1] + [['p', g.valid(src['fields'][-1][1])]]]
       if sp and content[0] == 'd' and content[1] and rng.chance(0.6):
         content = ['d', content[1][1:]]
       a = ['typed', src, sp, content]
@@ -326,6 +375,10 @@ class C03(Prop):
       fd = field_of(key)
       if fd is None:
         return copy.deepcopy(rng.choice(tv.ATOMS[:10]))
+      if fd['k'] == 'obj' and fd['cls'] == 4 and rng.chance(0.8):
+        return ['o'] + rng.choice(tv.SYM_POOL)
+      if fd.get('fz') and fd.get('n') and rng.chance(0.45):
+        return ['N']
       if rng.chance(0.5):
         a = typed_arg(fd)
         if a is not None:
@@ -390,6 +443,8 @@ class C03(Prop):
         else:
           op = [c]
       ops.append([op, scope])
+      if '"typed"' in json.dumps(op) and rng.chance(0.35):
+        ops.append([copy.deepcopy(op), scope])      # the same write retried (a rejected write must stay rejected)
     return {'kind': kind, 'spec': spec, 'partial': partial, 'items': items, 'ops': ops}
 
   # -- execution ---------------------------------------------------------------------------
@@ -457,8 +512,19 @@ class C03(Prop):
     return self.impl_dict(pg, case, spec, out)
 
   def impl_list(self, pg, case, spec, out):
+    why = out.setdefault('why', [])
+
     def conforms(lst):
-      ok = all(member_ok(spec.element.value, tv.from_py(x), False) for x in lst.sym_values())
+      ok = True
+      for x in lst.sym_values():
+        if not frozen_ok(spec.element.value, x):
+          ok = False
+          why.append('frozen-value-differs')
+        elif tv.deep_missing(x):
+          ok = False
+          why.append('nested-required-field-missing')
+        elif not member_ok(spec.element.value, tv.from_py(x), False):
+          ok = False
       if len(lst) < spec.min_size or (spec.max_size is not None and len(lst) > spec.max_size):
         ok = False
       return ok
@@ -484,14 +550,22 @@ class C03(Prop):
     is_object = case['kind'] == 'object'
     schema = spec.schema
 
+    why = out.setdefault('why', [])
+
     def content(target):
       return sorted([[k, canon(tv.from_py(v))] for k, v in target.sym_items()])
 
     def conforms(target, partial):
       for k, v in target.sym_items():
         field = schema.get_field(k)
+        if field is not None and not frozen_ok(field.value, v):
+          why.append('frozen-value-differs')
+          return False
         if field is None or not member_ok(field.value, tv.from_py(v), partial):
           return False
+        if not partial and tv.deep_missing(v):
+          why.append('nested-required-field-missing')
+          return False       # required fields are present at EVERY depth (raw members, no memoised state)
       keys = set(target.sym_keys())
       for ks in schema.keys():
         if ks.is_const and str(ks) not in keys:
@@ -521,6 +595,15 @@ class C03(Prop):
           run_dict_op(pg, target, pyop, is_object)
       except (TypeError, ValueError, KeyError, IndexError) as e:
         err = type(e).__name__
+      # every symbolic member still knows its place (parent and key), also after a rejected write
+      att = True
+      for k, v in target.sym_items():
+        if isinstance(v, pg.Symbolic):
+          if v.sym_parent is not target or v.sym_path.key != k:
+            att = False
+      out.setdefault('attached', []).append(att)
+      # derived state is queried between the steps, as a user program would (and memoised by pyglove)
+      out.setdefault('derived', []).append([bool(target.is_partial), len(target.sym_missing())])
       m['steps'].append({'err': err, 'items': content(target), 'conforms': conforms(target, True),
                          'complete': conforms(target, False)})
       typed.append(is_object or target.value_spec is not None)
@@ -539,7 +622,14 @@ class C03(Prop):
     return super().compare(case, impl_out, model_out)
 
   # -- the property itself --------------------------------------------------------------------
+  _known = None
+
   def oracle(self, case, out):
+    """First failure; one that is not a listed finding takes precedence over listed ones."""
+    f = self.oracle_first(case, out)
+    return f
+
+  def oracle_first(self, case, out):
     case = self.normalise(case)
     m = out['model']
     kind = case['kind']
@@ -559,9 +649,22 @@ class C03(Prop):
     prev = m['construct']
     ops = case['ops'] if kind == 'list' else [o for o, _ in case['ops']]
     scopes = [None] * len(ops) if kind == 'list' else [s for _, s in case['ops']]
-    for op, scope, s in zip(ops, scopes, m['steps']):
+    for i, (op, scope, s) in enumerate(zip(ops, scopes, m['steps'])):
       if scope:
         partial_allowed = True
+      if kind != 'list' and not out.get('attached', [True] * len(ops))[i]:
+        return {'signature': 'member-detached:%s:%s' % (kind, op[0]),
+                'what': 'after %s (%s) a symbolic member of the %s no longer has it as parent / its key as path' % (
+                    json.dumps(op), s['err'] or 'ok', kind)}
+      if not s['conforms'] and 'frozen-value-differs' in out.get('why', []):
+        return {'signature': 'frozen-value-differs:%s:%s' % (kind, op[0]),
+                'what': 'after %s a frozen member of the %s does not hold its frozen value: %s (spec %s)' % (
+                    json.dumps(op), kind, json.dumps(s['items']), json.dumps(st))}
+      if (not s['conforms'] or (kind != 'list' and not partial_allowed and not s['complete'])) and \
+          'nested-required-field-missing' in out.get('why', []):
+        return {'signature': 'nested-required-field-missing:%s:%s' % (kind, op[0]),
+                'what': 'after %s the %s (never made partial) holds a member with a missing required field at depth >= 2: %s' % (
+                    json.dumps(op), kind, json.dumps(s['items']))}
       if not s['conforms']:
         if kind == 'list':
           mn, mx = st[2], st[3]
@@ -604,7 +707,7 @@ class C03(Prop):
         for d in cands:
           if d[0] == src[0]:
             cls = c04.PROP.classify(d, src, a[3])
-            if '<-' in cls and (c04.dict_default_gap(d, src) or c04.dict_default_gap(src, d)):
+            if ('<-' in cls or cls == 'missing-into-frozen') and (c04.dict_default_gap(d, src) or c04.dict_default_gap(src, d)):
               cls = 'dict-field-default-ignored'   # compatibility does not look at field defaults (C04 F42)
             if '<-' in cls and member_ok(tv.build(c04.strip_rx(fields[k])), canon(a[3]), True):
               cls = 'str-regex-ignored'      # is_compatible documents that it ignores Str regexes
